@@ -700,3 +700,438 @@ def c07_cause(line, out):
         if (lc == 6 and nxt * 4 >= 2 ** 32) or (lc == 7 and nxt * 8 >= 2 ** 32):
             return "xcdr2-lc6-lc7-multiplication-overflow"
     return None
+
+
+# ============================================================================= keyed types (C11, C12)
+def flat_key_members(t, path=()):
+    """the traversal of KeyHolderType::from_dynamic_type: (path, member) of every key member; descends into non-key,
+    non-optional structure members"""
+    out = []
+    if t[0] == "struct":
+        for idx, m in enumerate(t[2]):
+            if m[2]:
+                out.append((path + (idx,), m))
+            elif m[4][0] == "struct" and not m[1]:
+                out += flat_key_members(m[4], path + (idx,))
+    return out
+
+
+def flat_ids_collide(t):
+    ids = [m[0] for _, m in flat_key_members(t)]
+    return len(set(ids)) != len(ids)
+
+
+def value_at(v, path):
+    for i in path:
+        if v is None:
+            return None
+        v = v[1][i]
+    return v
+
+
+def key_view(t, v):
+    """the key of the sample as the property means it: the values of the key members, by position (not by member id)"""
+    return [val_text(value_at(v, p)) for p, _ in flat_key_members(t)]
+
+
+def key_holder(t, v):
+    """type and value of the key-only payload (key members by position; flattened ids may collide)"""
+    ks = flat_key_members(t)
+    kt = ("struct", t[1], [(m[0], False, True, m[3], m[4]) for _, m in ks])
+    return kt, ("rec", [value_at(v, p) for p, _ in ks])
+
+
+def legal_sample(t, v):
+    """no non-optional member without value"""
+    if t[0] in ("seq", "arr"):
+        return all(legal_sample(t[1], e) for e in v)
+    if t[0] != "struct":
+        return True
+    for (i, o, k, mu, mt), f in zip(t[2], v[1]):
+        if f is None:
+            if not o:
+                return False
+        elif not legal_sample(mt, f):
+            return False
+    return True
+
+
+UNBOUNDED = float("inf")
+
+
+def max_key_size(t):
+    """maximum serialized size (big-endian XCDR1, from offset 0) of the key members: an int, UNBOUNDED (a string or a
+    sequence without bound), or None (optional / mutable parts: this simple calculator does not know).
+    Independent of the Lean `keyMaxSize`."""
+
+    def size(tt, pos):
+        k = tt[0]
+        if pos is None or pos == UNBOUNDED:
+            return pos
+        if k == "prim" or k == "enum":
+            n = PRIMS[tt[1]]
+            return (pos + n - 1) // n * n + n
+        if k == "str":
+            return UNBOUNDED
+        if k == "seq":
+            if not tt[2]:
+                return UNBOUNDED
+            pos = (pos + 3) // 4 * 4 + 4
+            for _ in range(tt[2]):
+                pos = size(tt[1], pos)
+            return pos
+        if k == "arr":
+            for _ in range(tt[2]):
+                pos = size(tt[1], pos)
+            return pos
+        if k == "struct" and tt[1] in "FA":
+            for m in tt[2]:
+                if m[1]:
+                    return None
+                pos = size(m[4], pos)
+            return pos
+        return None
+    pos = 0
+    for _, m in flat_key_members(t):
+        if m[1]:
+            return None
+        pos = size(m[4], pos)
+    return pos
+
+
+def key_bytes_py(t, v):
+    """independent big-endian XCDR1 serialization of the key members (in declaration order, no header); None when the
+    key contains optional members / mutable structures (left to the Lean specification)"""
+    out = bytearray()
+
+    def put(tt, x):
+        k = tt[0]
+        if x is None:
+            return False
+        if k == "prim" or k == "enum":
+            n = PRIMS[tt[1]]
+            out.extend(b"\0" * (-len(out) % n))
+            out.extend(int(x).to_bytes(n, "big"))
+            return True
+        if k == "str":
+            out.extend(b"\0" * (-len(out) % 4))
+            out.extend((len(x) + 1).to_bytes(4, "big") + bytes(x) + b"\0")
+            return True
+        if k == "seq":
+            out.extend(b"\0" * (-len(out) % 4))
+            out.extend(len(x).to_bytes(4, "big"))
+            return all(put(tt[1], e) for e in x)
+        if k == "arr":
+            return all(put(tt[1], e) for e in x)
+        if k == "struct" and tt[1] in "FA":
+            return all((not m[1]) and put(m[4], f) for m, f in zip(tt[2], x[1]))
+        return False
+    for p, m in flat_key_members(t):
+        if m[1] or not put(m[4], value_at(v, p)):
+            return None
+    return bytes(out)
+
+
+def strip_keys(t):
+    if t[0] in ("seq", "arr"):
+        return (t[0], strip_keys(t[1]), t[2])
+    if t[0] == "struct":
+        return ("struct", t[1], [(i, o, False, mu, strip_keys(mt)) for (i, o, k, mu, mt) in t[2]])
+    return t
+
+
+def gen_keyed_type(r, ver=None, collide=False, depth=2, counter=None, top=True, exotic=False):
+    """a structure type with at least one key member; nested non-key structures may carry further key members.
+    collide=False: member ids are taken from one counter, so the flattened key ids are distinct;
+    collide=True: every structure numbers its members from 0 (the natural numbering) -> flattened ids collide (D73)."""
+    counter = counter if counter is not None else [0]
+    ext = r.choice("FFAM") if top else r.choice("FFA")
+    n = r.range(1, 4) if not top else r.range(2, 5)
+    ms = []
+    have_key = False
+    local = 0
+    for i in range(n):
+        c = r.below(10)
+        is_key = r.chance(2, 5)
+        if depth > 0 and c < 3 and not is_key:
+            sub = gen_keyed_type(r, ver, collide, depth - 1, counter, top=False, exotic=exotic)
+            mt = sub
+            have_key = have_key or bool(flat_key_members(sub))
+        elif is_key:
+            kc = r.below(12)
+            if kc < 5:
+                mt = ("prim", r.choice([p for p in PRIM_NAMES if p != "c8"] if not exotic else PRIM_NAMES))
+            elif kc < 7:
+                mt = ("str",)
+            elif kc < 8:
+                mt = gen_enum(r)
+            elif kc < 9:
+                mt = ("arr", ("prim", r.choice(["u8", "i16", "u32", "u64"])), r.choice([1, 2, 3, 4, 8, 9]))
+            elif kc < 10:
+                mt = ("seq", ("prim", r.choice(["u8", "u16", "u32"])), 0)
+            else:
+                mt = ("struct", r.choice("FFA" + ("M" if exotic else "")),
+                      [(j, False, False, False, ("prim", r.choice(["u8", "u16", "u32", "u64"]))) for j in range(r.range(1, 3))])
+        else:
+            mt = strip_keys(gen_member_type(r, 1, Knobs(ver=ver)))
+        if collide:
+            mid = local
+            local += 1
+        else:
+            counter[0] += 1
+            mid = counter[0] + (1 if counter[0] >= 1 else 0)      # skip id 1 (XCDR1 sentinel, D67)
+        opt = (not is_key) and r.chance(1, 6)
+        if is_key and exotic and r.chance(1, 6):
+            opt = True
+        if is_key:
+            have_key = True
+        ms.append((mid, opt, is_key, r.chance(1, 8), mt))
+    if top and not have_key:
+        i, o, k, mu, mt = ms[0]
+        ms[0] = (i, False, True, mu, ("prim", "u32"))
+    return ("struct", ext, ms)
+
+
+def mutate_value(r, t, v, key):
+    """a copy of v in which one member is changed: a key member (key=True) or a non-key member (key=False) that is not
+    on the path to a key member; None if there is no such member"""
+    kpaths = [p for p, _ in flat_key_members(t)]
+    cands = []
+
+    def walk(tt, vv, path):
+        if tt[0] != "struct" or vv is None:
+            return
+        for idx, (m, f) in enumerate(zip(tt[2], vv[1])):
+            p = path + (idx,)
+            if p in kpaths:
+                if key and f is not None:
+                    cands.append((p, m[4]))
+            elif any(kp[:len(p)] == p for kp in kpaths):
+                walk(m[4], f, p)
+            else:
+                if not key and f is not None and not (tt[1] == "M" and False):
+                    cands.append((p, m[4]))
+    walk(t, v, ())
+    if not cands:
+        return None
+    p, mt = r.choice(cands)
+
+    def rebuild(vv, path):
+        if not path:
+            for _ in range(20):
+                nv = gen_value(r, mt, Knobs())
+                if val_text(nv) != val_text(vv):
+                    return nv
+            return None
+        fs = list(vv[1])
+        sub = rebuild(fs[path[0]], path[1:])
+        if sub is None:
+            return None
+        fs[path[0]] = sub
+        return ("rec", fs)
+    return rebuild(v, p)
+
+
+# ----------------------------------------------------------------------------- type evolution (C39)
+class Incompat(Exception):
+    pass
+
+
+def needs4(t):
+    return (t[0] == "prim" and PRIMS[t[1]] >= 4) or t[0] in ("str", "seq")
+
+
+def ideal_project(tr, tw, v, top=True):
+    """what a reader of type tr should see of the value v of the writer's type tw (independent of the Lean `project`;
+    recursive: nested structures are projected too). Raises Incompat when the two types are not related by the
+    evolution rules of DDS-XTypes 7.2.4 (same kind; structures: same extensibility, final = same members,
+    appendable = one member list a prefix of the other, mutable = common members by id)."""
+    k = tr[0]
+    if k != tw[0]:
+        raise Incompat("kind")
+    if k == "prim":
+        if tr[1] != tw[1]:
+            raise Incompat("primitive")
+        return v
+    if k == "str":
+        return v
+    if k == "enum":
+        if tr[1] != tw[1] or list(tr[2]) != list(tw[2]):
+            raise Incompat("enum")
+        return v
+    if k in ("seq", "arr"):
+        if k == "arr" and tr[2] != tw[2]:
+            raise Incompat("array bound")
+        if v is None:
+            ideal_project(tr[1], tw[1], None, False)
+            return None
+        return [ideal_project(tr[1], tw[1], e, False) for e in v] if v else (ideal_project(tr[1], tw[1], None, False) and [] or [])
+    if tr[1] != tw[1]:
+        raise Incompat("extensibility")
+    ext, mr, mw = tr[1], tr[2], tw[2]
+    fs = v[1] if v is not None else [None] * len(mw)
+
+    def sub(a, b, f):
+        if a[1] != b[1] or a[3] != b[3]:
+            raise Incompat("member flags")
+        if f is None:
+            ideal_project(a[4], b[4], None, False)        # type check only
+            return None
+        return ideal_project(a[4], b[4], f, False)
+    out = []
+    if ext in "FA":
+        if ext == "F" and len(mr) != len(mw):
+            raise Incompat("final member count")
+        for i, a in enumerate(mr):
+            if i < len(mw):
+                if a[0] != mw[i][0]:
+                    raise Incompat("member id")
+                out.append(sub(a, mw[i], fs[i]))
+            else:
+                out.append(None)
+    else:
+        if len(set(m[0] for m in mr)) != len(mr) or len(set(m[0] for m in mw)) != len(mw):
+            raise Incompat("duplicate ids")
+        for a in mr:
+            j = next((j for j, b in enumerate(mw) if b[0] == a[0]), None)
+            out.append(None if j is None else sub(a, mw[j], fs[j]))
+    if v is None:
+        return None
+    return ("rec", out)
+
+
+def strict_assignable(tr, tw):
+    """DDS-XTypes 7.2.4.4 for the generated types (independent of the Lean `assignable`): the types are related by the
+    evolution rules at every nesting level, there is a common member, non-optional must-understand members and key
+    members exist on both sides"""
+    try:
+        ideal_project(tr, tw, None)
+    except Incompat:
+        return False
+    if tr == tw:
+        return True
+    ir, iw = [m[0] for m in tr[2]], [m[0] for m in tw[2]]
+    if tr[1] == "F":
+        return True
+    if not set(ir) & set(iw):
+        return False
+    for ms, other in ((tr[2], iw), (tw[2], ir)):
+        for m in ms:
+            if ((not m[1] and m[3]) or m[2]) and m[0] not in other:
+                return False
+    return True
+
+
+def nested_differences(tr, tw, ver, top=True, out=None, inside_mutable=False):
+    """constructs of a related type pair the decoder does not handle (causes of known findings)"""
+    out = set() if out is None else out
+    if tr[0] != tw[0]:
+        return out
+    if tr[0] in ("seq", "arr"):
+        return nested_differences(tr[1], tw[1], ver, False, out, False)
+    if tr[0] != "struct" or tr[1] != tw[1]:
+        return out
+    ext, mr, mw = tr[1], tr[2], tw[2]
+    if ext == "A" and len(mr) != len(mw):
+        if not top and ver == 1 and not inside_mutable:
+            out.add("xcdr1-nested-appendable-not-delimited")
+        if not top and ver == 2 and len(mr) > len(mw):
+            out.add("xcdr2-nested-appendable-reader-extra-member-unbounded")
+        if not top and ver == 1 and inside_mutable and len(mr) > len(mw) and not needs_input(mr[len(mw)][4]):
+            out.add("reader-extra-member-reads-padding")
+        if top and len(mr) > len(mw) and (mr[len(mw)][1] or not needs4(mr[len(mw)][4])):
+            out.add("reader-extra-member-reads-padding")
+    if ext == "M":
+        iw = [m[0] for m in mw]
+        if not top and ver == 2 and any(m[0] not in iw for m in mr):
+            out.add("xcdr2-nested-mutable-absent-member-search-unbounded")
+    if ext in "FA":
+        for a, b in zip(mr, mw):
+            nested_differences(a[4], b[4], ver, False, out, False)
+    else:
+        for a in mr:
+            for b in mw:
+                if a[0] == b[0]:
+                    nested_differences(a[4], b[4], ver, False, out, True)
+    return out
+
+
+def needs_input(t):
+    return not (t[0] == "struct" and not t[2]) and not (t[0] == "arr" and t[2] == 0)
+
+
+def fresh_member(r, ids, ver, mid=None, small=None):
+    kn = Knobs(ver=ver, optional=0)
+    if small is None:
+        small = r.chance(1, 4)
+    t = ("prim", r.choice(["u8", "b", "i16", "c8"])) if small else \
+        r.choice([("prim", "u32"), ("prim", "f64"), ("prim", "i64"), ("str",), ("seq", ("prim", "u8"), 0),
+                  ("seq", ("str",), 0), ("prim", "f32")])
+    if mid is None:
+        mid = max(ids + [1]) + 1 + r.below(3)
+    return (mid, r.chance(1, 6) if not small else False, False, False, t)
+
+
+def evolve_type(r, tw, ver, depth=0):
+    """-> (reader type, kind): kind = 'legal' (edits of the evolution relation at top level), 'nested' (a nested
+    structure evolved), 'illegal' (a change assignability must reject or that the standard does not allow)"""
+    ext, ms = tw[1], list(tw[2])
+    ids = [m[0] for m in ms]
+    c = r.below(20)
+    if c < 12 or not ms:                                     # legal edits at this level
+        if ext == "F":
+            return tw, "legal"
+        if ext == "A":
+            if r.chance(1, 2) and len(ms) > 1:
+                k = r.range(1, len(ms) - 1)
+                return ("struct", ext, ms[:k]), "legal"       # writer has more
+            n = r.range(1, 3)
+            new = []
+            for j in range(n):
+                new.append(fresh_member(r, ids + [m[0] for m in new], ver, small=(None if j else r.chance(1, 5))))
+            return ("struct", ext, ms + new), "legal"         # reader has more
+        out = list(ms)
+        for _ in range(r.range(1, 3)):
+            e = r.below(3)
+            if e == 0 and len(out) > 1:
+                out.pop(r.below(len(out)))
+            elif e == 1:
+                out.insert(r.below(len(out) + 1), fresh_member(r, ids + [m[0] for m in out], ver))
+            else:
+                out = r.shuffle(out)
+        if not out:
+            out = ms[:1]
+        return ("struct", ext, out), "legal"
+    if c < 16:                                                # evolve a nested structure
+        cand = [i for i, m in enumerate(ms) if m[4][0] == "struct" or (m[4][0] in ("seq", "arr") and m[4][1][0] == "struct")]
+        if cand:
+            i = r.choice(cand)
+            m = ms[i]
+            if m[4][0] == "struct":
+                nt, _ = evolve_type(r, m[4], ver, depth + 1)
+            else:
+                et, _ = evolve_type(r, m[4][1], ver, depth + 1)
+                nt = (m[4][0], et, m[4][2])
+            ms[i] = (m[0], m[1], m[2], m[3], nt)
+            return ("struct", ext, ms), "nested"
+    # illegal edits
+    e = r.below(6)
+    if e == 0 and ms:
+        i = r.below(len(ms))
+        m = ms[i]
+        other = r.choice([("prim", "u16"), ("prim", "u64"), ("str",), ("struct", "F", [(0, False, False, False, ("prim", "u8"))]),
+                          ("enum", "i8", [0, 1]), ("seq", ("prim", "u8"), 0), ("prim", "b")])
+        ms[i] = (m[0], m[1], m[2], m[3], other)
+        return ("struct", ext, ms), "illegal"
+    if e == 1:
+        return ("struct", r.choice([x for x in "FAM" if x != ext]), ms), "illegal"
+    if e == 2 and ms:
+        i = r.below(len(ms))
+        m = ms[i]
+        ms[i] = (max(ids) + 5, m[1], m[2], m[3], m[4])
+        return ("struct", ext, ms), "illegal"
+    if e == 3:
+        return ("struct", ext, ms + [(max(ids + [1]) + 1, False, False, True, ("prim", "u32"))]), "illegal"   # must-understand extra
+    if e == 4:
+        return ("struct", ext, ms + [(max(ids + [1]) + 1, False, True, False, ("prim", "u32"))]), "illegal"   # key extra
+    return ("struct", ext, [(max(ids + [1]) + 1 + j, False, False, False, ("prim", "u32")) for j in range(2)]), "illegal"
